@@ -63,8 +63,10 @@ Fixpoint consumed_ok (fuel : nat) (code : bytes) (rest_len : N) : bool :=
   end.
 Fixpoint is_suffix_b (s l : bytes) : bool :=
   bytes_eqb s l || match l with [] => false | _ :: l' => is_suffix_b s l' end.
-(* instructions that replace the code buffer (CATCH, CROAK) make the result no suffix: not judged *)
-Definition vr_c15_ok (c : vrcase) : bool :=
+(* instructions that replace the code buffer (CATCH, CROAK) make the result no suffix: not judged.
+   lf = also judge runs that started with LOADFAIL set (there runErrCheck turns ANY error, a decoding
+   error included, into MOVE _catch with a nil error: K-C15-loadfail) *)
+Definition vr_c15_gen (lf : bool) (c : vrcase) : bool :=
   match vr_stat c with
   | OSPanic =>
     (* a panic while EXECUTING a complete, valid instruction (flag index outside the configured flag
@@ -73,10 +75,23 @@ Definition vr_c15_ok (c : vrcase) : bool :=
   | OSOk =>
     if is_suffix_b (vr_rest c) (vr_code c)
        && negb (existsb (fun f => f =? FLAG_TERMINATE) (vr_flags c))
-       && negb (existsb (fun f => f =? FLAG_LOADFAIL) (vr_flags c))
+       && (lf || negb (existsb (fun f => f =? FLAG_LOADFAIL) (vr_flags c)))
     then consumed_ok (S (List.length (vr_code c))) (vr_code c) (len (vr_rest c)) else true
   | _ => true
   end.
+Definition vr_c15_ok (c : vrcase) : bool := vr_c15_gen false c.
+(* class 1 = K-C15-loadfail: the only failure is the swallowed decoding error of a run that started
+   with LOADFAIL set *)
+Definition vr_c15_class (c : vrcase) : option N :=
+  if vr_c15_gen true c then None else if vr_c15_gen false c then Some 1 else Some 0.
 
 Definition vmrun_mismatches (cs : list vrcase) : list N := bad_indices vr_corr_ok cs.
-Definition vmrun_violations (cs : list vrcase) : list (N * N) := map (fun i => (i, 0)) (bad_indices vr_c15_ok cs).
+Fixpoint vr_classify (i : N) (cs : list vrcase) : list (N * N) :=
+  match cs with
+  | [] => []
+  | c :: r => match vr_c15_class c with
+              | Some k => (i, k) :: vr_classify (i + 1) r
+              | None => vr_classify (i + 1) r
+              end
+  end.
+Definition vmrun_violations (cs : list vrcase) : list (N * N) := vr_classify 0 cs.
